@@ -26,7 +26,7 @@ FUNCTIONS = ['Algebra option fields (cse, graded, wrapper, codegen_symbolcls, pr
              'OperatorDict.__post_init__ (symbol class override)', 'MultiVector.__new__ graded key check', 'BladeDict.__getitem__ (graded blades)',
              'codegen_sqrt (source text from str() of symbolic coefficients)', 'lambdify with/without cse', 'every codegen_* operator']
 ASSUMPTIONS = ['coefficients are reals; denominators non-zero; sqrt inside its domain', 'operand patterns are unions of complete grades']
-BOUNDS = {'quick': '(p,q,r) d<=3 (6 signatures); 9 option settings incl. three wrapper kinds (second pass after other operators were generated); 29 operators; grade-union patterns with <=2 grades; graded mode swept systematically (seed-independent)',
+BOUNDS = {'quick': '(p,q,r) d<=3 (6 signatures); 9 option settings incl. three wrapper kinds (second pass after other operators were generated); 29 operators; grade-union patterns with <=2 grades; graded mode swept systematically (seed-independent); graded-chain kind (sympy coefficients, filter(), duals) over 6 signatures; the same operator on other patterns between the two wrapper passes',
           'thorough': 'all (p,q,r) d<=3 + three d=4; all grade unions'}
 OUTSIDE = ['wrappers that are not semantics-preserving', 'd > 4']
 OPTS = {'rlimit': 300_000_000, 'canary_every': 12}
